@@ -510,7 +510,7 @@ def run_lex_flags(res, prop, tier):
     if v["consumed"] != v["nlines"] and not v["r"]["timeout"]:
         res.violation("trace rejected by the specification", dict(tlc_out=v["r"]["out"][-1500:]))
     distinct = len(set(json.loads(x)["ct"]["lexemes"] for x in lines if json.loads(x)["input"] == FLAG_INPUTS[1]))
-    if distinct < 3:
+    if distinct < 3 and not res.violations:
         raise core.ToolError("flag cases are not distinguishing (vacuous)")
     res.notes["ct_builder_flag_cases"] = len(cases)
     res.cov["traces_validated_against_impl"] += len(lines)
